@@ -1210,7 +1210,7 @@ def d7_solver(ctx, idx):
     reference (C06.D2 INIT, C06.D3 RESULT, C06.D4 STEPS) here as well, so a change of the solver is reported under this id."""
     from . import c06
     r = ctx.rule('D7.SOLVER', 'the assignment solver equals the reviewed Munkres reference (state re-initialised per solve, '
-                 'result extraction, step table, per-cell step effects) -- a pin to the reference, not a proof of optimality', floor=73)
+                 'result extraction, step table, per-cell step effects) -- a pin to the reference, not a proof of optimality', floor=77)
     with r:
         c06.solver_rules(r, idx)
 
